@@ -61,16 +61,25 @@ META = {
                   "(refresh_perm_invariant_refuted, append_perm_invariant_refuted) and were demonstrated on the real "
                   "code: F-C14-1 (fixed in /repo by 4ccbe6a; refresh_graph_order_invariant covers the fixed loop) and "
                   "F-C14-2 (fixed by 8f5c416; append_refOrder_invariant covers the fixed loop). Every "
-                  "iteration site found by the scan must be in the reviewed list (decide +kernel).",
+                  "iteration site found by the scan must be auto-justified by the scanner's dataflow check "
+                  "(sorted / feeds a set / any-all reduction / id-hash used as key only) or be in the reviewed list "
+                  "(sites_reviewed, decide +kernel). Round 2: contextvar_restored / contextvar_history_independent "
+                  "(ContextVar save/restore discipline: all nestings, handlers and exception points; "
+                  "bare_restore_refuted for the variant without finally), scratch_cleared_independent; "
+                  "state_classified: every piece of module/class-level state or ContextVar of jax2onnx that a probe "
+                  "conversion changes (enumerated by type on every run) falls in a class with an independence theorem.",
     "level_note": "The theorems are about the model; the link to /repo is (a) the reviewed site list keyed by a hash "
-                  "of each loop body (a changed body or new site breaks the obligation), (b) sampled "
-                  "correspondence, (c) byte equality of real exports, which is sampling over histories/seeds "
-                  "(validated, not proved). onnx_ir library passes, JAX tracing and protobuf serialisation are "
+                  "of each loop body (a changed body or new site breaks the obligation) plus a syntactic, conservative "
+                  "dataflow check for the auto-justified sites, (b) sampled "
+                  "correspondence (incl. random save/restore programs on a real ContextVar, failures injected into "
+                  "real function-body traces and lowering), (c) byte equality of real exports, which is sampling over "
+                  "histories/seeds (validated, not proved), (d) the state probe, which classifies state by observed "
+                  "behaviour over a fixed two-round protocol. onnx_ir library passes, JAX tracing and protobuf serialisation are "
                   "covered only by (c). Hash collisions are assumed away (injective encodings).",
     "design_ref": "DESIGN.md §3 C14",
 }
 
-MODS = ["J2O.Props.C14", "J2O.GenProps.C14"]
+MODS = ["J2O.Props.C14", "J2O.Props.C14Ctx", "J2O.GenProps.C14"]
 # process-wide state whose change across a conversion is history leakage (`_ONNX_FN_HITS` is only
 # reported: a failed conversion leaves it filled until the next successful one consumes it, and
 # nothing that reaches the model reads it)
@@ -88,11 +97,14 @@ SITE_KEYS = ("file", "fn", "kind", "iter", "target", "body")
 # ----------------------------------------------------------------------------- T: scan -> Gen
 
 
-def generate() -> dict:
+def generate(probe: Optional[dict] = None, with_state: bool = True) -> dict:
+    """Gen/C14.lean from the AST scan; Gen/C14State.lean from the state probe (a fresh subprocess with a
+    fixed protocol; pass `probe` when it was started earlier, `with_state=False` to leave the file alone)."""
     sites, ctors, missing = c14_scan.scan(REPO)
 
     def row(s):
         return "(" + ", ".join(lean_str(s[k]) for k in SITE_KEYS) + ")"
+    autos = [s for s in sites if s.get("auto")]
     src = f"""/- GENERATED by harness/props/c14.py (AST scan of the live /repo sources) on every run — do not edit. -/
 namespace J2O.Gen.C14
 
@@ -103,13 +115,62 @@ abbrev Site := String × String × String × String × String × String
     call in the anchored files. -/
 def sites : List Site := {lean_list(map(row, sites), 1)}
 
+/-- Sites for which the scanner's dataflow check established that the enumeration order / the hash value
+    cannot reach the output, with the class of the justification (`c14_scan.AUTO_CLASSES`). -/
+def auto : List (Site × String) := {lean_list(["(" + row(s) + ", " + lean_str(s["auto"]) + ")" for s in autos], 1)}
+
 /-- Anchored files that could not be scanned. -/
 def missingFiles : List String := {lean_list(map(lean_str, missing), 1)}
 
 end J2O.Gen.C14
 """
     write_if_changed(LEAN / "J2O/Gen/C14.lean", src)
-    return {"sites": sites, "ctors": ctors, "missing": missing}
+    out = {"sites": sites, "ctors": ctors, "missing": missing, "probe": None}
+    if with_state:
+        if probe is None:
+            probe = run_probe()
+        write_state_gen(probe)
+        out["probe"] = probe
+    return out
+
+
+def run_probe(timeout: int = 1500) -> dict:
+    """The state probe (c14_worker.probe_state) in a fresh interpreter: enumerates ALL module-level /
+    class-level mutable state and ContextVars of jax2onnx and reports what conversions change."""
+    env = dict(os.environ)
+    env.update({"PYTHONHASHSEED": "0", "J2O_REPO": str(REPO), "JAX_PLATFORMS": "cpu"})
+    r = subprocess.run([sys.executable, str(WORKER), json.dumps({"probe": True})], capture_output=True,
+                       text=True, timeout=timeout, env=env)
+    for line in r.stdout.splitlines():
+        if line.startswith("RESULT "):
+            return json.loads(line[7:])
+    raise RuntimeError(f"C14 state probe produced no result (exit {r.returncode}): {r.stderr[-1500:]}")
+
+
+def write_state_gen(probe: dict) -> None:
+    rows = ["(" + lean_str(r["name"]) + ", " + lean_str(r["kind"]) + ", "
+            + lean_list([lean_str(x) for x in r["flags"].split("+") if x]) + ")" for r in probe["rows"]]
+    src = f"""/- GENERATED by harness/props/c14.py (state probe of the live /repo in a fresh interpreter) — do not edit. -/
+namespace J2O.Gen.C14State
+
+/-- (qualified name, object kind, flags).  One row per piece of module-level / class-level state or
+    ContextVar of jax2onnx that SOME conversion of the probe protocol changed.  Flags: `r1` changed in
+    the first round, `r2` changed when the same requests were converted again, `fail` changed by a failing
+    conversion of round 2, `net` value after round 2 differs from the value after round 1, `dirty`
+    (ContextVars) a successful conversion left a value different from the initial one. -/
+abbrev Row := String × String × List String
+
+def surviving : List Row := {lean_list(rows, 1)}
+
+/-- Every ContextVar found in a jax2onnx module. -/
+def ctxvars : List String := {lean_list(map(lean_str, probe["ctxvars"]), 1)}
+
+/-- Number of state objects inventoried (containers, caches, scalars, ContextVars). -/
+def inventorySize : Nat := {int(probe["inventory_size"])}
+
+end J2O.Gen.C14State
+"""
+    write_if_changed(LEAN / "J2O/Gen/C14State.lean", src)
 
 
 def reviewed_sites() -> dict:
@@ -594,6 +655,302 @@ def corr_convert(chk: Check, rng: common.Rng, n_hist: int) -> list:
     return lines, judge
 
 
+# ---- ContextVar discipline
+
+
+class _StepFailure(Exception):
+    pass
+
+
+def _mk_prog(rng: common.Rng, depth: int, ctr: list, disciplined: bool):
+    k = rng.randint(0, 9)
+    if depth <= 0 or k <= 1:
+        if rng.chance(0.5):
+            return ["read"]
+        ctr[0] += 1
+        return ["step", ctr[0]]
+    if k <= 4:
+        return ["seq", _mk_prog(rng, depth - 1, ctr, disciplined), _mk_prog(rng, depth - 1, ctr, disciplined)]
+    if k <= 6:
+        tag = rng.choice(["token", "saved"] if disciplined else ["token", "saved", "nofinally", "nofinally"])
+        return [tag, rng.choice(["F", "G", "Outer", "Alpha"]), _mk_prog(rng, depth - 1, ctr, disciplined)]
+    if k <= 8:
+        return ["handle", _mk_prog(rng, depth - 1, ctr, disciplined), _mk_prog(rng, depth - 1, ctr, disciplined)]
+    if disciplined:
+        return ["seq", ["read"], _mk_prog(rng, depth - 1, ctr, disciplined)]
+    return ["assign", rng.choice(["F", "Z"])]
+
+
+def _py_exec(p, var, raises: set, trace: list) -> None:
+    """The program on a REAL contextvars.ContextVar with real try/finally, Token and reset()."""
+    tag = p[0]
+    if tag == "step":
+        if p[1] in raises:
+            raise _StepFailure()
+    elif tag == "read":
+        trace.append(list(var.get()))
+    elif tag == "seq":
+        _py_exec(p[1], var, raises, trace)
+        _py_exec(p[2], var, raises, trace)
+    elif tag == "token":
+        tok = var.set((p[1],) + var.get())
+        try:
+            _py_exec(p[2], var, raises, trace)
+        finally:
+            var.reset(tok)
+    elif tag == "saved":
+        old = var.get()
+        var.set((p[1],) + old)
+        try:
+            _py_exec(p[2], var, raises, trace)
+        finally:
+            var.set(old)
+    elif tag == "nofinally":
+        tok = var.set((p[1],) + var.get())
+        _py_exec(p[2], var, raises, trace)
+        var.reset(tok)
+    elif tag == "handle":
+        try:
+            _py_exec(p[1], var, raises, trace)
+        except _StepFailure:
+            _py_exec(p[2], var, raises, trace)
+    elif tag == "assign":
+        var.set((p[1],) + var.get())
+    else:
+        raise ValueError(tag)
+
+
+def _prog_depth(p) -> int:
+    return 1 + max([_prog_depth(x) for x in p[1:] if isinstance(x, list)] or [0])
+
+
+def corr_ctx(chk: Check, rng: common.Rng, n: int):
+    """Random save/restore programs (disciplined and not) with injected failures on a real ContextVar vs
+    the model's `exec`; for disciplined ones additionally the conclusion of `contextvar_restored`."""
+    import contextvars
+    lines, reals = [], []
+    bad_theorem = []
+    for i in range(n):
+        disciplined = i % 3 != 2
+        ctr = [0]
+        prog = _mk_prog(rng, rng.randint(2, 5), ctr, disciplined)
+        raises = sorted(k for k in range(1, ctr[0] + 1) if rng.chance(0.35))
+        init = [rng.choice(["X", "Y"]) for _ in range(rng.randint(0, 2))]
+        var = contextvars.ContextVar(f"c14_probe_{i}", default=())
+        trace: list = []
+
+        def body():
+            var.set(tuple(init))
+            try:
+                _py_exec(prog, var, set(raises), trace)
+                return False
+            except _StepFailure:
+                return True
+            finally:
+                body.val = list(var.get())
+        raised = contextvars.copy_context().run(body)
+        real = {"raised": raised, "val": body.val, "trace": trace}
+        lines.append(json.dumps({"op": "ctx", "prog": prog, "raise": raises, "init": init}))
+        reals.append(real)
+        chk.count({"op": "ctx", "prog": prog, "raise": raises, "disciplined": disciplined, "raised": raised},
+                  nontrivial=bool(raises) and _prog_depth(prog) >= 3)
+        if disciplined and body.val != init:
+            bad_theorem.append({"prog": prog, "raise": raises, "init": init, "val": body.val})
+        if not disciplined and body.val != init:
+            chk.add("ctx_undisciplined_programs_that_leak")
+
+    def judge(ans):
+        bad = [{"request": json.loads(l), "real": r, "model": json.loads(a)}
+               for l, r, a in zip(lines, reals, ans) if json.loads(a) != r]
+        return bad + [{"contextvar_restored_contradicted_on_real_ContextVar": b} for b in bad_theorem]
+    return lines, judge
+
+
+def _ctxvar_objects() -> list:
+    import contextvars
+    out, seen = [], set()
+    for mname in sorted(sys.modules):
+        mod = sys.modules[mname]
+        if mod is not None and mname.startswith("jax2onnx"):
+            for v in vars(mod).values():
+                if isinstance(v, contextvars.ContextVar) and id(v) not in seen:
+                    seen.add(id(v))
+                    out.append(v)
+    return out
+
+
+def _ctxvar_state(inv: dict) -> dict:
+    return {n: fp[1] for n, fp in inv.items() if fp[0] == "ctxvar"}
+
+
+INJECT_REQUESTS = ("fn_nested3", "fn_nested_ns", "fn_shared", "fn_class", "fn_inbuild_ok", "fn_const", "fn_unique",
+                   "call_params2")
+
+
+def inject_failures(chk: Check, rng: common.Rng, thorough: bool) -> tuple:
+    """Tie of `contextvar_restored` / `contextvar_history_independent` to the real function-body tracing:
+    every request that builds ONNX functions is exported, then converted again with a failure INJECTED at the
+    k-th trace (k >= 2: inside a function-body build, nested builds included) resp. at sampled fresh-name
+    allocations (inside lowering, inside function bodies), then exported again.  Conclusions checked on the
+    real code: the second export has the same bytes; every ContextVar of jax2onnx is back at its value."""
+    w = _worker_mod()
+    findings, leaks, info = [], [], {}
+    reqs = list(INJECT_REQUESTS) if thorough else list(INJECT_REQUESTS[:4])
+    for rid in reqs:
+        base = convert_digest(rid)
+        if base["digest"] is None:
+            raise RuntimeError(f"catalogue request {rid} does not convert: {base['error']}")
+        counts = {}
+        for point in ("trace", "name"):
+            counts[point] = w.convert_injected(rid, point, 0)
+        if counts["trace"]["raised"] or counts["name"]["raised"]:
+            raise RuntimeError(f"instrumented conversion of {rid} raised without injection: {counts}")
+        nt, nn = counts["trace"]["count"], counts["name"]["count"]
+        inside = [i + 1 for i, d in enumerate(counts["name"]["depths"]) if d > 0]
+        points = [("trace", k) for k in range(2, nt + 1)]
+        name_ks = rng.sample(inside, min(len(inside), 4 if thorough else 2)) + \
+            rng.sample(range(1, nn + 1), min(nn, 6 if thorough else 3))
+        points += [("name", k) for k in sorted(set(name_ks))]
+        info[rid] = {"traces": nt, "fresh_names": nn, "fresh_names_inside_function_bodies": len(inside),
+                     "max_nesting": max(counts["trace"]["depths"] + counts["name"]["depths"] + [0]),
+                     "points": [f"{p}#{k}" for p, k in points]}
+        for point, k in points:
+            before = _ctxvar_state(w.state_inventory())
+            saved = [(cv, cv.get()) for cv in _ctxvar_objects()]
+            res = w.convert_injected(rid, point, k)
+            after_fail = _ctxvar_state(w.state_inventory())
+            again = convert_digest(rid)
+            after_ok = _ctxvar_state(w.state_inventory())
+            changed_fail = {n: [before.get(n), after_fail.get(n)] for n in after_fail if before.get(n) != after_fail.get(n)}
+            changed_ok = {n: [before.get(n), after_ok.get(n)] for n in after_ok if before.get(n) != after_ok.get(n)}
+            depth = res["depths"][k - 1] if 0 < k <= len(res["depths"]) else None
+            chk.count({"op": "inject-failure", "request": rid, "point": point, "k": k, "raised": res["raised"],
+                       "error": res["error"], "nesting_at_point": depth,
+                       "ctxvars_after_failure": sorted(changed_fail)}, nontrivial=bool(depth))
+            if not res["raised"]:
+                raise RuntimeError(f"injected failure {point}#{k} in {rid} did not surface: {res}")
+            if changed_ok:
+                leaks.append({"request": rid, "inject": f"{point}#{k}", "where": "in-process",
+                              "changed": changed_ok, "after_failed_conversion": changed_fail})
+                for cv, old in saved:                 # undo the leak so that later parts start clean
+                    cv.set(old)
+            if again["digest"] != base["digest"]:
+                findings.append({"request": rid, "point": point, "k": k, "base": base, "again": again,
+                                 "changed": changed_fail, "nesting": depth})
+                # later points would only repeat the damage: restore what we can and stop this request
+                break
+    chk.info("failure_injection", info)
+    return findings, leaks
+
+
+def poison_ctxvars(chk: Check) -> list:
+    """Independence of a later conversion from what scratch ContextVars hold: every jax2onnx ContextVar that
+    holds a set gets a foreign member before the export; the bytes must not change."""
+    import contextvars
+    bad = []
+    seen = set()
+    for mname in sorted(sys.modules):
+        mod = sys.modules[mname]
+        if mod is None or not mname.startswith("jax2onnx"):
+            continue
+        for attr, cv in sorted(vars(mod).items()):
+            if not isinstance(cv, contextvars.ContextVar) or id(cv) in seen:
+                continue
+            seen.add(id(cv))
+            try:
+                val = cv.get()
+            except LookupError:
+                continue
+            if not isinstance(val, (set, frozenset)):
+                continue
+            for rid in ("fn_shared", "fn_nested_ns"):
+                base = convert_digest(rid)
+                tok = cv.set(type(val)(set(val) | {"onnx_fn::c14_poison.NotAFunction"}))
+                try:
+                    got = convert_digest(rid)
+                finally:
+                    cv.reset(tok)
+                chk.count({"op": "poison-ctxvar", "var": f"{mname}:{attr}", "request": rid,
+                           "same": got["digest"] == base["digest"]}, nontrivial=True)
+                if got["digest"] != base["digest"]:
+                    bad.append({"var": f"{mname}:{attr}", "request": rid,
+                                "diff": diff_lines(base["summary"], got["summary"])})
+    return bad
+
+
+def classify_state_row(r: dict):
+    """Python mirror of GenProps `classifyState` (reporting only; the verdict is the Lean build)."""
+    flags = [x for x in r["flags"].split("+") if x]
+    if r["kind"] == "weakmap":
+        return "instanceMap"
+    if r["kind"] == "ctxvar":
+        return None if ("dirty" in flags or "net" in flags) else "scratchVar"
+    if r["kind"] in ("map", "set", "list", "lru", "scalar", "weakset") and flags == ["r1"]:
+        return "saturating"
+    return None
+
+
+def requests_reaching(sites: list) -> dict:
+    """Which catalogue programs execute the lines of the given scanned sites (line tracing limited to the
+    sites' files)."""
+    w = _worker_mod()
+    spans: dict = {}
+    for f, lo, hi, site in c14_scan.LINES:
+        sid = c14_scan.site_id(site)
+        if sid in sites:
+            spans.setdefault(f, []).append((lo, hi, sid))
+    reach: dict = {sid: [] for sid in sites}
+    if not spans:
+        return reach
+    for rid in [i for i in w.request_ids() if i not in w.FAILING]:
+        hit: set = set()
+
+        def local(frame, event, arg, _sp=None):
+            if event == "line":
+                for lo, hi, sid in local.sp:
+                    if lo <= frame.f_lineno <= hi:
+                        hit.add(sid)
+            return local
+
+        def tracer(frame, event, arg):
+            sp = spans.get(os.path.basename(frame.f_code.co_filename))
+            if sp is None or str(REPO) not in frame.f_code.co_filename:
+                return None
+            local.sp = sp
+            return local
+        sys.settrace(tracer)
+        try:
+            convert_digest(rid)
+        finally:
+            sys.settrace(None)
+        for sid in hit:
+            reach[sid].append(rid)
+    return reach
+
+
+def focused_sweep(chk: Check, rng: common.Rng, uncovered: list, tmp: str) -> tuple:
+    """A site the obligations do not cover: find the catalogue programs that reach it and export exactly
+    those under many more hash seeds (short histories, each program twice)."""
+    reach = requests_reaching(uncovered)
+    rids = sorted({r for v in reach.values() for r in v})
+    chk.info("focused_sweep_reach", {site_label(s): v for s, v in reach.items()})
+    if not rids:
+        return [], [], reach
+    seeds = list(range(3, 11)) + [rng.randint(11, 2 ** 32 - 1) for _ in range(2)]
+    specs = [{"hashseed": hs, "malloc": None,
+              "spec": {"history": rids + list(reversed(rids)), "garbage_seed": hs if hs % 2 else 0,
+                       "gc": "default", "preimport": []}} for hs in seeds]
+    dirs = []
+    for i in range(len(specs)):
+        d = os.path.join(tmp, f"focus{i}")
+        os.makedirs(d, exist_ok=True)
+        dirs.append(d)
+    with ThreadPoolExecutor(max_workers=5) as ex:
+        results = list(ex.map(lambda jd: run_worker(jd[0], jd[1]), zip(specs, dirs)))
+    chk.info("focused_sweep", {"requests": rids, "hash_seeds": seeds, "processes": len(specs)})
+    return specs, results, reach
+
+
 # ---- refresh
 
 
@@ -919,10 +1276,13 @@ def run(chk: Check) -> None:
     timing: dict = {}
     tmp = tempfile.mkdtemp(prefix="c14_")
     ex = None
+    pex = ThreadPoolExecutor(max_workers=2)
     try:
+        probe_f = pex.submit(run_probe)          # fresh interpreter, fixed protocol; joined before the Lean build
         specs, dirs, futs, ex = start_subprocesses(common.Rng(chk.seed * 7919 + 13), thorough, tmp)
-        _run_body(chk, rng, thorough, specs, dirs, futs, timing, t0)
+        _run_body(chk, rng, thorough, specs, dirs, futs, timing, t0, probe_f, tmp, pex)
     finally:
+        pex.shutdown(wait=True, cancel_futures=True)
         if ex is not None:
             ex.shutdown(wait=True, cancel_futures=True)
         shutil.rmtree(tmp, ignore_errors=True)
@@ -930,19 +1290,32 @@ def run(chk: Check) -> None:
 
 
 def _run_body(chk: Check, rng: common.Rng, thorough: bool, specs: list, dirs: list, futs: list,
-              timing: dict, t0: float) -> None:
-    gen = generate()
+              timing: dict, t0: float, probe_f, tmp: str, pex) -> None:
+    gen = generate(with_state=False)
     sites = gen["sites"]
+
+    def _probe_and_prove():
+        # T: state probe -> Gen/C14State.lean, then the Lean build of all obligations; runs beside the
+        # in-process parts (it mostly waits: for the probe interpreter, for lake)
+        p = probe_f.result()
+        write_state_gen(p)
+        ok = chk.prove(MODS, checker=thorough)
+        timing["probe+lean_done"] = round(time.time() - t0, 1)
+        return p, ok
+    lean_f = pex.submit(_probe_and_prove)
     kinds: dict = {}
     for s in sites:
         kinds[s["kind"]] = kinds.get(s["kind"], 0) + 1
     chk.info("scan", {"files": len(c14_scan.FILES), "missing_files": gen["missing"], "sites": len(sites),
                       "by_kind": kinds, "set_constructor_sites": len(gen["ctors"])})
-    proved = chk.prove(MODS, checker=thorough)
-    timing["scan+lean"] = round(time.time() - t0, 1)
     reviewed = reviewed_sites()
-    unreviewed = [c14_scan.site_id(s) for s in sites if c14_scan.site_id(s) not in reviewed]
+    unreviewed = [c14_scan.site_id(s) for s in sites
+                  if c14_scan.site_id(s) not in reviewed and s.get("auto") not in c14_scan.AUTO_CLASSES]
     chk.info("unreviewed_sites", unreviewed)
+    for sid in unreviewed:
+        chk.log(f"iteration site not covered (neither auto-justified nor reviewed): {sid}")
+    chk.info("auto_justified_sites", {c14_scan.site_id(s): s["auto"] for s in sites if s.get("auto")})
+    chk.info("stale_reviewed_rows", sorted(set(reviewed) - {c14_scan.site_id(s) for s in sites}))
     chk.info("reviewed_classes", {c: sum(1 for s in sites if reviewed.get(c14_scan.site_id(s)) == c)
                                   for c in sorted(set(reviewed.values()))})
 
@@ -954,6 +1327,7 @@ def _run_body(chk: Check, rng: common.Rng, thorough: bool, specs: list, dirs: li
         "memo": corr_memo(chk, rng, 8 * k),
         "convert": corr_convert(chk, rng, 12 * k),
         "refresh": corr_refresh(chk, rng, 40 * k),
+        "ctx": corr_ctx(chk, rng, 60 * k),
     }
     all_lines = [l for lines, _ in parts.values() for l in lines]
     answers = common.run_driver("C14", all_lines)          # one Lean start for all requests
@@ -1036,10 +1410,60 @@ def _run_body(chk: Check, rng: common.Rng, thorough: bool, specs: list, dirs: li
                                     f"process ({kind})", rep):
                 unlisted += 1
 
+    # ---- OBS (C''): failures injected into real function-body tracing / lowering (tie of `contextvar_restored`)
+    inj_findings, inj_leaks = inject_failures(chk, rng, thorough)
+    for fnd in inj_findings:
+        rid = fnd["request"]
+        kind = classify(fnd["base"], fnd["again"])
+        key = {"request": rid, "site": f"history:after-injected-failure:{fnd['point']}", "kind": kind}
+        rep = {"how": f"unpatched code, one process: export {rid}; convert {rid} again with an exception injected at "
+                      f"occurrence #{fnd['k']} of '{fnd['point']}' (trace = jax.make_jaxpr call, >= 2 is the re-trace "
+                      f"of an @onnx_function body; name = fresh-name allocation during lowering); export {rid} again",
+               "inject_failure": {"request": rid, "point": fnd["point"], "k": fnd["k"]},
+               "nesting_at_point": fnd["nesting"], "contextvars_changed_by_failed_conversion": fnd["changed"],
+               "diff": diff_lines(fnd["base"]["summary"], fnd["again"]["summary"]),
+               "rerun": "/venv/bin/python harness/vcheck.py C14 --replay <this file>"}
+        if not chk.finding(key, f"export of {rid} changes after a conversion that failed at {fnd['point']}#{fnd['k']} "
+                                f"(inside a function-body build) in the same process ({kind})", rep):
+            unlisted += 1
+    inproc_leaks += inj_leaks
+    poisoned = poison_ctxvars(chk)
+    for pz in poisoned:
+        key = {"request": pz["request"], "site": f"state:{pz['var'].split(':')[-1]}", "kind": "reads-stale-contextvar"}
+        if not chk.finding(key, f"export of {pz['request']} depends on what an earlier conversion left in {pz['var']}",
+                           {"how": "in-process: the ContextVar got a foreign member before the export",
+                            "poison": pz, "diff": pz["diff"]}):
+            unlisted += 1
+    timing["failure_injection"] = round(time.time() - t0, 1)
+
+    # ---- T: state probe -> Gen/C14State.lean; Lean build of all obligations
+    probe, proved = lean_f.result()
+    unclassified = [r for r in probe["rows"] if classify_state_row(r) is None]
+    chk.info("state_probe_inventory", {"objects": probe["inventory_size"], "by_kind": probe["inventory_kinds"],
+                                       "ctxvars": probe["ctxvars"], "unexpected_outcomes": probe["unexpected_outcomes"],
+                                       "surviving": {r["name"]: [r["kind"], r["flags"], classify_state_row(r)]
+                                                     for r in probe["rows"]}})
+    chk.info("unclassified_state", unclassified)
+    for r in unclassified:
+        chk.log(f"process-wide state without an independence class: {r['name']} ({r['kind']}, changed in {r['flags']})")
+    timing["probe+lean_joined"] = round(time.time() - t0, 1)
+
     # ---- OBS (D): the unpatched code in subprocesses
     if True:
         by_req, state_leaks = collect_subprocesses(chk, specs, futs)
         state_leaks = state_leaks + inproc_leaks
+        if unreviewed:                              # a site nobody justified: sweep the programs that reach it
+            f_specs, f_results, reach = focused_sweep(chk, rng, unreviewed, tmp)
+            base_run = len(specs)
+            for j, (job, res) in enumerate(zip(f_specs, f_results)):
+                specs.append(job)
+                dirs.append(os.path.join(tmp, f"focus{j}"))
+                for rec in res["results"]:
+                    rec = dict(rec)
+                    rec["run"] = base_run + j
+                    by_req.setdefault(rec["id"], []).append(rec)
+                    chk.count({"op": "focused-subprocess", "request": rec["id"], "hashseed": job["hashseed"],
+                               "pos": rec["pos"]}, nontrivial=True)
         timing["subprocesses_joined"] = round(time.time() - t0, 1)
         w = _worker_mod()
         differing = {}
@@ -1094,11 +1518,15 @@ def _run_body(chk: Check, rng: common.Rng, thorough: bool, specs: list, dirs: li
         n_corr += 1
     if not proved and unlisted == 0:
         chk.violation({"broken": getattr(chk, "broken", []), "unreviewed_sites": unreviewed,
+                       "unclassified_state": unclassified,
                        "missing_files": gen["missing"],
                        "build_log_tail": getattr(chk, "build_log", "")[-2500:],
-                       "note": "an iteration site found by the scan is not in the reviewed list (new site or "
-                               "changed loop body) or a theorem no longer checks; the digest search over hash "
-                               "seeds / histories / forced enumeration orders found no differing export"},
+                       "note": "an iteration site found by the scan is neither auto-justified by the dataflow check "
+                               "nor in the reviewed list (new site or changed loop body), or a piece of process-wide "
+                               "state changed by conversions falls in no class with an independence theorem, or a "
+                               "theorem no longer checks; the digest search over hash seeds (incl. the focused sweep "
+                               "of the programs that reach the site) / histories / injected failures / forced "
+                               "enumeration orders found no differing export"},
                       name="obligation-broken", no_failing_input=True)
     if state_leaks and unlisted == 0:
         chk.violation({"state_leaks": state_leaks[:10],
@@ -1119,7 +1547,11 @@ def _run_body(chk: Check, rng: common.Rng, thorough: bool, specs: list, dirs: li
         "scan: all for/comprehension/list()/sorted()/pop() over sets, identity-keyed dicts, module registries "
         "and all hash()/id() calls in 9 anchored files (exhaustive, syntactic). Correspondence: seeded histories "
         "of naming/memo/registry operations and random elementwise forests x 3 visiting orders; non-trivial = "
-        "repeated bases/keys, >1 node. Exports: catalogue of 22 programs + 6 failing ones (two fail inside a "
+        "repeated bases/keys, >1 node; random ContextVar save/restore programs with raising steps (non-trivial = "
+        "raising step under nesting >= 3). State: every module/class-level container, cache, scalar and ContextVar "
+        "of jax2onnx (found by type) diffed across a fixed two-round protocol of 12 good + 6 failing conversions. "
+        "Injection: every function-body trace of 4 (thorough 7) function programs fails once, plus sampled "
+        "fresh-name allocations; ContextVars poisoned. Exports: catalogue of 23 programs + 6 failing ones (two fail inside a "
         "function-body build) x forced set orders "
         "(non-trivial = some scanned site enumerated >= 2 elements) and x subprocesses (hash seeds x histories x "
         "allocation noise x gc x malloc x plugin pre-import); non-trivial = not first in its history")
@@ -1141,7 +1573,7 @@ def replay(path: str) -> int:
             print(side, "->", outs[-1])
         return 1 if outs[0] != outs[1] else 0
     if "inject" in rep:
-        generate()
+        generate(with_state=False)
         rid, sid = rep["inject"]["request"], rep["inject"]["site"]
         with inject("ins"):
             a = convert_digest(rid)
@@ -1152,10 +1584,22 @@ def replay(path: str) -> int:
             print(d)
         return 1 if a["digest"] != b["digest"] else 0
     if "forest" in rep:
-        generate()
+        generate(with_state=False)
         res = pass_level_forest(None, None, 0, only_spec=rep["forest"]["spec"])
         print("insertion order:", res["ins"]["shapes"], "\nreversed order: ", res["rev"]["shapes"])
         return 1 if res["ins"] != res["rev"] else 0
+    if "inject_failure" in rep:
+        w = _worker_mod()
+        j = rep["inject_failure"]
+        a = convert_digest(j["request"])
+        res = w.convert_injected(j["request"], j["point"], j["k"])
+        b = convert_digest(j["request"])
+        print("first:", a["digest"], "| injected failure:", res["error"], "| again:", b["digest"])
+        for d in diff_lines(a["summary"], b["summary"]):
+            print(d)
+        return 1 if a["digest"] != b["digest"] else 0
+    if "poison" in rep:
+        return 1 if poison_ctxvars(Check("C14", "quick", 0)) else 0
     if "repeat" in rep:
         rid = rep["repeat"]["request"]
         a = convert_digest(rid)
@@ -1167,16 +1611,19 @@ def replay(path: str) -> int:
             print(d)
         return 1 if a["digest"] != b["digest"] else 0
     if "unreviewed_sites" in rep:
-        gen = generate()
+        gen = generate(with_state=bool(rep.get("unclassified_state")))
         rv = reviewed_sites()
-        now = [c14_scan.site_id(s) for s in gen["sites"] if c14_scan.site_id(s) not in rv]
+        now = [c14_scan.site_id(s) for s in gen["sites"]
+               if c14_scan.site_id(s) not in rv and s.get("auto") not in c14_scan.AUTO_CLASSES]
         print("unreviewed now:", now)
-        return 1 if now else 0
+        unc = [r for r in (gen["probe"] or {}).get("rows", []) if classify_state_row(r) is None]
+        print("unclassified state now:", unc)
+        return 1 if (now or unc) else 0
     return 0
 
 
 if __name__ == "__main__":  # developer aid: print the scanned sites as Lean rows for the reviewed list
     _rv = reviewed_sites()
-    for s in generate()["sites"]:
-        cls = _rv.get(c14_scan.site_id(s), "TODO_REVIEW")
+    for s in generate(with_state=False)["sites"]:
+        cls = _rv.get(c14_scan.site_id(s), ("auto:" + s["auto"]) if s.get("auto") else "TODO_REVIEW")
         print("  ((" + ", ".join(lean_str(s[k]) for k in SITE_KEYS) + f"), .{cls}),")
